@@ -692,6 +692,11 @@ func (db *RockDB) SetRange(ts int64, rawKey []byte, offset int, value []byte) (i
 	if len(value) == 0 {
 		return 0, nil
 	}
+	if offset < 0 {
+		// the offset comes from the client. A negative one would panic below while
+		// the committed entry is applied, on every replica and on every replay.
+		return 0, errOffsetOutOfRange
+	}
 	if len(value)+offset > MaxValueSize {
 		return 0, errValueSize
 	}
